@@ -95,14 +95,22 @@ PROPS = {
                      "texts built with format! are uninterpreted; trusted: the notice key differs from the conflicted key, a notice does not start with "
                      "'resolved', 'resolved <v>' does"],
     ),
+    "C16": dict(
+        units=["ids"],
+        undecided=["the restart / kill half: order of the is-oplog.valid flag, key-map and oplog writes at every crash point (crash points are not "
+                   "expressible as pre/postconditions)",
+                   "that the identifier maps loaded from disk satisfy the invariants (they are preconditions here)",
+                   "two threads generating key ids concurrently (generate_key_id reads the length under one lock and inserts under another)"],
+        assumptions=["db_ids_small: identifiers in use are below usize::MAX", "invalidate_oplog is replaced by a shim that touches no identifier map (R8)"],
+    ),
     "C19": dict(
         units=["consensus"],
         undecided=["two concurrent clients (lock elision)", "'applied in the primary's order on every node' (replication)"],
         assumptions=["Change::new stamps the resolving change with the wall clock (any u64)"],
     ),
     "C10": dict(
-        units=["store", "consensus", "security"],
-        reachable={"store": STORE_FNS, "security": SECURITY_FNS, "consensus": ["Database::try_resolve_conflict_response", "apply_change_to_db_try_fix_conflicts",
+        units=["store", "consensus", "security", "ids"],
+        reachable={"store": STORE_FNS, "security": SECURITY_FNS, "ids": ["generate_key_id", "create_temp_db", "Databases::add_database", "Databases::next_db_id"], "consensus": ["Database::try_resolve_conflict_response", "apply_change_to_db_try_fix_conflicts",
                    "set_key_value", "Database::resolve_conflit", "Database::has_arbiter_connected", "Change::new"]},
         undecided=["transport loops, dispatcher unwraps, lock poisoning propagation"],
         assumptions=[],
